@@ -24,7 +24,7 @@ type timerCtx struct {
 	t               *timer
 }
 
-var epoch = time.Date(2030, 1, 1, 0, 0, 0, 0, time.UTC)
+var vepoch = time.Date(2030, 1, 1, 0, 0, 0, 0, time.UTC)
 
 func (c *timerCtx) Deadline() (time.Time, bool) { return c.deadline, true }
 
@@ -79,7 +79,7 @@ func WithTimeout(parent context.Context, d time.Duration) (context.Context, cont
 	}
 	s.nextObj++
 	t := &timer{at: s.now + d, seq: s.nextObj, cancel: cancel}
-	c := &timerCtx{Context: inner, deadline: epoch.Add(t.at), t: t}
+	c := &timerCtx{Context: inner, deadline: vepoch.Add(t.at), t: t}
 	t.ctx = c
 	if d <= 0 {
 		t.fired = true
@@ -102,7 +102,7 @@ func WithDeadline(parent context.Context, at time.Time) (context.Context, contex
 	if s == nil {
 		return context.WithDeadline(parent, at)
 	}
-	return WithTimeout(parent, at.Sub(epoch)-s.now)
+	return WithTimeout(parent, at.Sub(vepoch)-s.now)
 }
 
 // Sleep advances virtual time for the calling thread: it blocks until a
@@ -123,5 +123,5 @@ func VNow() time.Time {
 	if S == nil {
 		return time.Now()
 	}
-	return epoch.Add(S.now)
+	return vepoch.Add(S.now)
 }
